@@ -21,6 +21,7 @@ mod loadseq;
 mod detect;
 mod serdecmd;
 mod hdr;
+mod ghwcmd;
 
 thread_local! {
     pub static LAST_PANIC: std::cell::RefCell<String> = std::cell::RefCell::new(String::new());
@@ -50,6 +51,8 @@ pub fn dispatch(line: &str) -> String {
     match toks[0] {
         "tables" => tables::tables(&toks),
         "vcdhdr" => hdr::vcdhdr(&toks),
+        "ghw" => ghwcmd::ghw(&toks),
+        "wavedump" => ghwcmd::wavedump(&toks),
         "serdert" => serdecmd::serdert(&toks),
         "serdejson" => serdecmd::serdejson(&toks),
         "detect" => detect::detect(&toks),
